@@ -25,6 +25,8 @@ type cbWorld struct {
 	rres map[string][]string                  // model: F -> result callbacks
 	gone map[string]bool                      // peers whose connection was removed
 	last int                                  // counter of the last request sent by a reqcb operation (0: none)
+
+	cacheInKey bool
 }
 
 //go:norace
@@ -187,6 +189,17 @@ func (c *cbWorld) apply(op string, judge bool) (viol []string, digest string, ef
 				l := limitList(2, 1)
 				cmd = model.CmdType{LoadControlLimitListData: l}
 				data = l
+			} else if variant == "partial" || variant == "delete" {
+				// a reply restricted by a filter: the callbacks get the RECEIVED data, not what the cache of the remote
+				// feature holds after the reply was merged into it
+				l := &model.LoadControlLimitListDataType{LoadControlLimitData: []model.LoadControlLimitDataType{{LimitId: util.Ptr(model.LoadControlLimitIdType(2)), Value: model.NewScaledNumberType(5)}}}
+				cmd = model.CmdType{Function: util.Ptr(fnLimit), Filter: []model.FilterType{*model.NewFilterTypePartial()}, LoadControlLimitListData: l}
+				if variant == "delete" {
+					l = &model.LoadControlLimitListDataType{}
+					cmd = model.CmdType{Function: util.Ptr(fnLimit), LoadControlLimitListData: l, Filter: []model.FilterType{
+						{CmdControl: &model.CmdControlType{Delete: &model.ElementTagType{}}, LoadControlLimitListDataSelectors: &model.LoadControlLimitListDataSelectorsType{LimitId: util.Ptr(model.LoadControlLimitIdType(1))}}}}
+				}
+				data = l
 			} else {
 				// a function the sending LoadControl feature does not have: the reply is rejected
 				cmd = model.CmdType{MeasurementListData: &model.MeasurementListDataType{}}
@@ -257,6 +270,14 @@ func (c *cbWorld) key() string {
 			rq = append(rq, fmt.Sprint(p, spine.VerifReqCache(c.w.Peers[p].Dev.Sender()), "next=", spine.VerifMsgNum(c.w.Peers[p].Dev.Sender())))
 		}
 	}
+	if c.cacheInKey {
+		// what the remote feature's cache holds (drivers whose replies carry filters)
+		if d := c.w.L.RemoteDeviceForSki("A"); d != nil {
+			if rf := d.FeatureByAddress(cliAddr("A", "e1f4", true)); rf != nil {
+				parts = append(parts, "cacheA="+world.JSON(rf.DataCopy(fnLimit)))
+			}
+		}
+	}
 	return strings.Join(parts, " ") + " reg=" + strings.Join(ks, ";") + " res=" + strings.Join(rs, ";") + fmt.Sprintf(" gone=%v%v last=%d unanswered=%v", c.gone["A"], c.gone["B"], c.last, rq)
 }
 
@@ -308,7 +329,24 @@ func c14Drivers(thorough bool) []*engine.HDriver {
 			}
 			st.Key = c.key()
 			return st
-		}}}
+		}},
+		// replies restricted by a filter on top of a cache that already holds data
+		{Name: "callbacks-data-of-filtered-replies", Alphabet: []string{"addcb:F1:1:a", "addcb:F1:2:b", "reply:F1:1:A:valid", "reply:F1:3:A:valid", "reply:F1:1:A:partial", "reply:F1:2:A:partial",
+			"reply:F1:3:A:partial", "reply:F1:1:A:delete", "reply:F1:2:A:delete", "reply:F1:3:A:delete"},
+			Step: func(hist []string, op string) engine.HStep {
+				c := newCBWorld()
+				c.cacheInKey = true
+				rt.WaitIdle()
+				for _, h := range hist {
+					c.apply(h, false)
+				}
+				var st engine.HStep
+				if op != "" {
+					st.Violations, st.Digest, st.Effect = c.apply(op, true)
+				}
+				st.Key = c.key()
+				return st
+			}}}
 }
 
 func c14Scenarios() []*engine.SScenario {
